@@ -36,11 +36,18 @@ def run(tier, replay=None):
     if not r2.ok:
         raise vlib.Infra("Invoke: the model's own round trip fails: " + r2.out[-800:])
     exp = {json.loads(l)["id"]: json.loads(l)["call"] for l in open(os.path.join(wd, "inv_out.ndjson"))}
+    nesc = 0
     with open(os.path.join(wd, "run.ndjson"), "w") as f:
         for x in rows:
             f.write(json.dumps({"id": x["id"], "src": invcorpus.stage_src(x),
                                 "args": {a["n"]: invcorpus.untag_json(a["v"]) for a in x["args"]},
                                 "split": x["split"], "call": exp[x["id"]], "names": [p["n"] for p in x["params"]]}) + "\n")
+            # the same data with every non-ASCII character spelled as a \uXXXX escape
+            esc = {a["n"]: invcorpus.untag_json(a["v"], True) for a in x["args"]}
+            if esc != {a["n"]: invcorpus.untag_json(a["v"]) for a in x["args"]}:
+                nesc += 1
+                f.write(json.dumps({"id": x["id"] + "#esc", "src": invcorpus.stage_src(x), "args": esc,
+                                    "split": x["split"], "call": exp[x["id"]], "names": [p["n"] for p in x["params"]]}) + "\n")
     p = subprocess.run([os.path.join(vlib.BUILD, "bin", "vh"), "inv-run", os.path.join(wd, "run.ndjson"),
                         os.path.join(wd, "out.json"), wd], stdout=subprocess.PIPE, stderr=subprocess.PIPE, text=True,
                        env=vlib.GOENV, timeout=3000)
@@ -50,9 +57,12 @@ def run(tier, replay=None):
     byid = {x["id"]: x for x in rows}
     viols = []
     for v in rep.get("violations") or []:
-        x = byid[v["id"]]
+        x = byid[v["id"].split("#")[0]]
         sig = ", ".join("%s %s" % (invcorpus.type_str(q["t"]), q["n"]) for q in x["params"])
-        viols.append({"key": "C16:%s:%s" % (v["kind"], sig[:60]),
+        kind = v["kind"]
+        if kind == "data-to-call-fails" and '"fits": false' in json.dumps(x["args"]):
+            kind = "integer-beyond-int64-in-data"
+        viols.append({"key": "C16:%s:%s" % (kind, sig[:60]),
                       "what": "%s (row %s, stage S(%s), split %s): %s" % (v["kind"], v["id"], sig, x["split"], v["detail"][:300].replace("\n", " ")),
                       "replay": {"row.json": json.dumps(x), "call.mro": v["text"], "detail.txt": v["detail"]}})
     # per-fork invocations on real runs
